@@ -274,6 +274,60 @@ def coq_show(work, expr, imports):
     return out[-3000:]
 
 
+
+# ---------------------------------------------------------------- measured tie: line coverage of the anchored files
+class Coverage(object):
+    """Line coverage of geomdl source files while the implementation side of the correspondence runs (thorough tier)."""
+    def __init__(self, root):
+        self.root = os.path.join(os.path.realpath(root), "geomdl")
+        self.hits = set()
+
+    def _local(self, frame, event, arg):
+        if event == "line":
+            self.hits.add((frame.f_code.co_filename, frame.f_lineno))
+        return self._local
+
+    def _global(self, frame, event, arg):
+        if event == "call" and os.path.realpath(frame.f_code.co_filename).startswith(self.root):
+            return self._local
+        return None
+
+    def start(self):
+        sys.settrace(self._global)
+
+    def stop(self):
+        sys.settrace(None)
+
+    def report(self, files):
+        out = {}
+        for rel in files:
+            path = os.path.join(os.path.dirname(self.root), rel)
+            if not os.path.exists(path):
+                continue
+            try:
+                code = compile(open(path).read(), path, "exec")
+            except Exception:
+                continue
+            funcs = []
+
+            def walk(co, qual):
+                lines = set(l for _, _, l in co.co_lines() if l is not None)
+                for c in co.co_consts:
+                    if hasattr(c, "co_code"):
+                        sub = walk(c, (qual + "." if qual else "") + c.co_name)
+                        lines -= sub
+                if qual:
+                    funcs.append((qual, lines))
+                return set(l for _, _, l in co.co_lines() if l is not None)
+            walk(code, "")
+            hit_lines = set(l for f, l in self.hits if os.path.realpath(f) == os.path.realpath(path))
+            total = sum(len(ls) for _, ls in funcs)
+            hit = sum(len(ls & hit_lines) for _, ls in funcs)
+            never = sorted(q for q, ls in funcs if ls and not (ls & hit_lines) and not q.split(".")[-1].startswith("<"))
+            out[rel] = {"function_lines_executed": hit, "function_lines_total": total,
+                        "functions_never_executed": never[:60], "functions_never_executed_count": len(never)}
+        return out
+
 # ---------------------------------------------------------------- known findings
 def load_known(prop):
     out = []
@@ -300,6 +354,14 @@ def match_known(known, famname, case, out):
 
 
 # ---------------------------------------------------------------- main
+def anchor_files(prop):
+    for l in open(os.path.join(VERIF, "properties.jsonl")):
+        p = json.loads(l)
+        if p["id"] == prop:
+            return p["anchors"]["files"]
+    return []
+
+
 def case_hash(obj):
     return hashlib.sha1(json.dumps(obj, sort_keys=True, default=str).encode()).hexdigest()[:12]
 
@@ -372,8 +434,15 @@ def main(argv):
         for case in fam.gen(rng, n):
             records.append([fam, case, None])
     t_a = time.time()
-    for r in records:
-        r[2] = run_impl(r[0], r[1])
+    cov = Coverage(REPO) if (tier == "thorough" or os.environ.get("VERIF_COVERAGE")) else None
+    if cov:
+        cov.start()
+    try:
+        for r in records:
+            r[2] = run_impl(r[0], r[1])
+    finally:
+        if cov:
+            cov.stop()
     t_b = time.time()
 
     exprs, idx = [], []
@@ -522,6 +591,7 @@ def main(argv):
             "disagreements": len(disagreements), "oracle_failures": len(oracle_fail), "oracle_checked": sum(1 for r in records if r[0].has_oracle),
             "known_findings_seen": sorted(seen_known.keys()), "search_cases": searched,
             "theorem_notes": getattr(mod, "THEOREM_NOTES", ""),
+            "anchored_code_tied_by_this_run": (cov.report(anchor_files(prop)) if cov else "measured in the thorough tier (line coverage of the anchored files while the implementation side of the correspondence runs)"),
         },
         "assumptions": getattr(mod, "ASSUMPTIONS", []),
         "wall_s": round(time.time() - t0, 2),
